@@ -1886,4 +1886,293 @@ theorem subsetSubs_get (rm : List Nat) : ∀ (ims : List (List Nat)) (subs : Lis
         | bad => simp [subsetSubs, h0, throw, throwThe, MonadExceptOf.throw] at h
 
 
+/-! ## P. `HvarVvarSubsetPlan::new`: the outer map names exactly the subtables with retained rows -/
+
+def AccInv (acc : Acc) : Prop := ∀ j, j ∈ acc.outerMap ↔ acc.innerSets.getD j [] ≠ []
+
+theorem getD_modify (l : List (List Nat)) (i j : Nat) (f : List Nat → List Nat) (hi : i < l.length) :
+    (l.modify i f).getD j [] = if i = j then f (l.getD i []) else l.getD j [] := by
+  rw [List.getD_eq_getElem?_getD, List.getElem?_modify]
+  by_cases hij : i = j
+  · subst hij
+    simp [List.getD_eq_getElem?_getD, List.getElem?_eq_getElem hi]
+  · simp only [hij, if_false]
+    rw [List.getD_eq_getElem?_getD]
+    cases l[j]? <;> simp
+
+theorem setInsert_ne_nil (x : Nat) (s : List Nat) : setInsert x s ≠ [] := by
+  intro h
+  have : x ∈ setInsert x s := mem_setInsert.mpr (Or.inl rfl)
+  rw [h] at this; cases this
+
+theorem collectFwd_inv (m : MapIn) (mc : Nat) : ∀ (l : List (Nat × Nat)) (acc : Acc) (mi : List Nat)
+    (acc' : Acc) (mi' : List Nat), AccInv acc → mi.length = acc.innerSets.length →
+    collectFwd m mc l acc mi = .ok (acc', mi') →
+    AccInv acc' ∧ acc'.innerSets.length = acc.innerSets.length ∧
+      (∀ j ∈ acc.outerMap, j ∈ acc'.outerMap) := by
+  intro l
+  induction l with
+  | nil =>
+    intro acc mi acc' mi' hinv hlen h
+    simp only [collectFwd, pure, Except.pure, Except.ok.injEq, Prod.mk.injEq] at h
+    obtain ⟨rfl, rfl⟩ := h
+    exact ⟨hinv, rfl, fun j hj => hj⟩
+  | cons x rest ih =>
+    intro acc mi acc' mi' hinv hlen h
+    obtain ⟨new, old⟩ := x
+    rw [collectFwd] at h
+    split at h
+    · simp only [pure, Except.pure, Except.ok.injEq, Prod.mk.injEq] at h
+      obtain ⟨rfl, rfl⟩ := h
+      exact ⟨hinv, rfl, fun j hj => hj⟩
+    · split at h
+      · cases h
+      · rename_i outer inner hget
+        split at h
+        · simp only [pure, Except.pure, Except.ok.injEq, Prod.mk.injEq] at h
+          obtain ⟨rfl, rfl⟩ := h
+          exact ⟨hinv, rfl, fun j hj => hj⟩
+        · rename_i hout
+          have hol : outer < acc.innerSets.length := by omega
+          have hinv' : AccInv (⟨bmAdd acc.outerMap outer,
+              acc.innerSets.modify outer (setInsert inner)⟩ : Acc) := by
+            intro j
+            simp only [mem_bmAdd]
+            rw [getD_modify _ _ _ _ hol]
+            by_cases hj : outer = j
+            · subst hj
+              simp only [if_true]
+              constructor
+              · intro _; exact setInsert_ne_nil _ _
+              · intro _; exact Or.inr trivial
+            · simp only [hj, if_false]
+              rw [← hinv j]
+              constructor
+              · rintro (h1 | h1)
+                · exact h1
+                · exact absurd h1.symm hj
+              · intro h1; exact Or.inl h1
+          have := ih _ _ acc' mi' hinv' (by simp [List.length_modify]; omega) h
+          refine ⟨this.1, by rw [this.2.1]; simp [List.length_modify], ?_⟩
+          intro j hj
+          exact this.2.2 j (mem_bmAdd.mpr (Or.inl hj))
+
+/-- what `new` fixes about the plan of one map. -/
+def PlanFacts (m : Option MapIn) (n2o : List (Nat × Nat)) (bypass : Bool) (p : MapPlan) : Prop :=
+  (bypass = true ∧ m = none ∧ p.mapCount = 0 ∧ p.output = []) ∨
+  (∃ lastGid, scanBack m n2o.reverse none = .ok lastGid ∧
+    (p.mapCount = match lastGid with
+      | none => 0
+      | some lg => (lg + 1) % 65536) ∧
+    (p.outerBits = match m with
+      | some mm => ((mm.entryFormat % 64) / 16 % 4 + 1) * 8 - ((mm.entryFormat % 64) % 16 + 1)
+      | none => 6) ∧
+    p.output = [])
+
+theorem scanBack_none_ne (n2o : List (Nat × Nat)) (hne : n2o ≠ []) (r : Option Nat)
+    (h : scanBack none n2o.reverse none = .ok r) : r ≠ none := by
+  rcases scanBack_spec none n2o r h with ⟨h1, _⟩ | ⟨_, x, _, _, _, hr, _⟩
+  · exact absurd h1 hne
+  · rw [hr]; simp
+
+theorem planNew_inv (m : Option MapIn) (n2o : List (Nat × Nat)) (glyphset : List Nat) (bypass : Bool)
+    (acc : Acc) (p : MapPlan) (acc' : Acc) (hinv : AccInv acc) (hgs : n2o ≠ [] → glyphset ≠ [])
+    (h : planNew m n2o glyphset bypass acc = .ok (p, acc')) :
+    AccInv acc' ∧ acc'.innerSets.length = acc.innerSets.length ∧
+    (∀ j ∈ acc.outerMap, j ∈ acc'.outerMap) ∧ PlanFacts m n2o bypass p ∧
+    (m = none → bypass = false → n2o ≠ [] → 0 ∈ acc'.outerMap) := by
+  unfold planNew at h
+  split at h
+  · rename_i hb
+    simp only [pure, Except.pure, Except.ok.injEq, Prod.mk.injEq] at h
+    obtain ⟨rfl, rfl⟩ := h
+    simp only [Bool.and_eq_true, Option.isNone_iff_eq_none] at hb
+    refine ⟨hinv, rfl, fun j hj => hj, Or.inl ⟨hb.1, hb.2, rfl, rfl⟩, ?_⟩
+    intro _ hb2; rw [hb.1] at hb2; cases hb2
+  · simp only [] at h
+    split at h
+    · cases h
+    · -- nothing retained
+      rename_i hscan
+      simp only [pure, Except.pure, Except.ok.injEq, Prod.mk.injEq] at h
+      obtain ⟨rfl, rfl⟩ := h
+      refine ⟨hinv, rfl, fun j hj => hj, Or.inr ⟨none, hscan, rfl, ?_, rfl⟩, ?_⟩
+      · cases m <;> rfl
+      · intro hm _ hne
+        subst hm
+        exact absurd rfl (scanBack_none_ne n2o hne none hscan)
+    · rename_i lg hscan
+      split at h
+      · -- implicit advance map
+        split at h
+        · rename_i s0 ss last hsets hlast
+          simp only [pure, Except.pure, Except.ok.injEq, Prod.mk.injEq] at h
+          obtain ⟨rfl, rfl⟩ := h
+          have hne : n2o ≠ [] := by
+            intro e; subst e; simp at hlast
+          have hg := hgs hne
+          refine ⟨?_, by simp [hsets], fun j hj => mem_bmAdd.mpr (Or.inl hj),
+            Or.inr ⟨some lg, hscan, rfl, rfl, rfl⟩, fun _ _ _ => mem_bmAdd.mpr (Or.inr rfl)⟩
+          intro j
+          simp only [mem_bmAdd]
+          cases j with
+          | zero =>
+            simp only [List.getD_cons_zero]
+            constructor
+            · intro _ he
+              obtain ⟨g, l', gs⟩ := List.exists_cons_of_ne_nil hg
+              have : g % 65536 ∈ setAddAll s0 (glyphset.map (· % 65536)) := by
+                rw [mem_setAddAll]; right; rw [gs]; simp
+              rw [he] at this; cases this
+            · intro _; simp
+          | succ j =>
+            have := hinv (j + 1)
+            rw [hsets] at this
+            simp only [List.getD_cons_succ] at this ⊢
+            rw [← this]
+            constructor
+            · rintro (h1 | h1)
+              · exact h1
+              · cases h1
+            · intro h1; exact Or.inl h1
+        · cases h
+      · rename_i mm hnb
+        split at h
+        · cases h
+        · rename_i acc2 mi hcf
+          simp only [pure, Except.pure, Except.ok.injEq, Prod.mk.injEq] at h
+          obtain ⟨rfl, rfl⟩ := h
+          have := collectFwd_inv mm _ n2o acc _ acc2 mi hinv (by simp) hcf
+          refine ⟨this.1, this.2.1, this.2.2, Or.inr ⟨some lg, hscan, rfl, rfl, rfl⟩, ?_⟩
+          intro hm; cases hm
+
+theorem planRest_inv (n2o : List (Nat × Nat)) (glyphset : List Nat) (hgs : n2o ≠ [] → glyphset ≠ []) :
+    ∀ (ms : List (Option MapIn)) (acc : Acc) (ps : List MapPlan) (acc' : Acc), AccInv acc →
+    planRest n2o glyphset ms acc = .ok (ps, acc') →
+    AccInv acc' ∧ acc'.innerSets.length = acc.innerSets.length ∧
+    (∀ j ∈ acc.outerMap, j ∈ acc'.outerMap) ∧ ps.length = ms.length ∧
+    (∀ (k : Nat) (m : Option MapIn) (p : MapPlan), ms[k]? = some m → ps[k]? = some p →
+      PlanFacts m n2o true p) := by
+  intro ms
+  induction ms with
+  | nil =>
+    intro acc ps acc' hinv h
+    simp only [planRest, pure, Except.pure, Except.ok.injEq, Prod.mk.injEq] at h
+    obtain ⟨rfl, rfl⟩ := h
+    exact ⟨hinv, rfl, fun j hj => hj, rfl, fun k m p hm => by simp at hm⟩
+  | cons m ms ih =>
+    intro acc ps acc' hinv h
+    rw [planRest] at h
+    split at h
+    · cases h
+    · rename_i p acc1 hp
+      split at h
+      · cases h
+      · rename_i ps' acc2 hrest
+        simp only [pure, Except.pure, Except.ok.injEq, Prod.mk.injEq] at h
+        obtain ⟨rfl, rfl⟩ := h
+        have h1 := planNew_inv m n2o glyphset true acc p acc1 hinv hgs hp
+        have h2 := ih acc1 ps' acc2 h1.1 hrest
+        refine ⟨h2.1, by rw [h2.2.1, h1.2.1], fun j hj => h2.2.2.1 j (h1.2.2.1 j hj),
+          by simp [h2.2.2.2.1], ?_⟩
+        intro k m' p' hm hp'
+        cases k with
+        | zero =>
+          simp at hm hp'; subst hm; subst hp'
+          exact h1.2.2.2.1
+        | succ k => exact h2.2.2.2.2 k m' p' (by simpa using hm) (by simpa using hp')
+
+theorem remapAll_get (n2o : List (Nat × Nat)) (om : List Nat) (ims : List (List Nat)) :
+    ∀ (ps : List MapPlan) (ms : List (Option MapIn)) (out : List MapPlan),
+    remapAll n2o om ims ps ms = .ok out → ps.length = ms.length →
+    out.length = ps.length ∧
+    ∀ (k : Nat) (p : MapPlan) (m : Option MapIn), ps[k]? = some p → ms[k]? = some m →
+      ∃ p', remap p m n2o om ims = .ok p' ∧ out[k]? = some p' := by
+  intro ps
+  induction ps with
+  | nil =>
+    intro ms out h _
+    simp only [remapAll, pure, Except.pure, Except.ok.injEq] at h
+    subst h; exact ⟨rfl, fun k p m hp => by simp at hp⟩
+  | cons p ps ih =>
+    intro ms out h hlen
+    cases ms with
+    | nil => simp at hlen
+    | cons m ms =>
+      rw [remapAll] at h
+      split at h
+      · cases h
+      · rename_i p' hp'
+        split at h
+        · cases h
+        · rename_i ps' hps'
+          simp only [pure, Except.pure, Except.ok.injEq] at h
+          subst h
+          have := ih ms ps' hps' (by simpa using hlen)
+          refine ⟨by simp [this.1], ?_⟩
+          intro k q mm hq hmm
+          cases k with
+          | zero =>
+            simp at hq hmm; subst hq; subst hmm
+            exact ⟨p', hp', by simp⟩
+          | succ k =>
+            obtain ⟨q', h1, h2⟩ := this.2 k q mm (by simpa using hq) (by simpa using hmm)
+            exact ⟨q', h1, by simpa using h2⟩
+
+theorem serializeMaps_get : ∀ (ps : List MapPlan) (out : List (Option MapOut)),
+    serializeMaps ps = .ok out → out.length = ps.length ∧
+    ∀ (k : Nat) (p : MapPlan), ps[k]? = some p →
+      (p.output = [] ∧ out[k]? = some none) ∨
+      (p.output ≠ [] ∧ ∃ mo, serializeMap p = .ok mo ∧ out[k]? = some (some mo)) := by
+  intro ps
+  induction ps with
+  | nil =>
+    intro out h
+    simp only [serializeMaps, pure, Except.pure, Except.ok.injEq] at h
+    subst h; exact ⟨rfl, fun k p hp => by simp at hp⟩
+  | cons p ps ih =>
+    intro out h
+    rw [serializeMaps] at h
+    split at h
+    · rename_i hemp
+      cases hrest : serializeMaps ps with
+      | error e => rw [hrest] at h; cases h
+      | ok rest =>
+        rw [hrest] at h
+        simp only [Except.map, Except.ok.injEq] at h
+        subst h
+        have := ih rest hrest
+        refine ⟨by simp [this.1], ?_⟩
+        intro k q hq
+        cases k with
+        | zero =>
+          simp at hq; subst hq
+          exact Or.inl ⟨by simpa using hemp, by simp⟩
+        | succ k =>
+          rcases this.2 k q (by simpa using hq) with h1 | ⟨h1, mo, h2, h3⟩
+          · exact Or.inl ⟨h1.1, by simpa using h1.2⟩
+          · exact Or.inr ⟨h1, mo, h2, by simpa using h3⟩
+    · rename_i hemp
+      split at h
+      · cases h
+      · rename_i mo hmo
+        cases hrest : serializeMaps ps with
+        | error e => rw [hrest] at h; cases h
+        | ok rest =>
+          rw [hrest] at h
+          simp only [Except.map, Except.ok.injEq] at h
+          subst h
+          have := ih rest hrest
+          refine ⟨by simp [this.1], ?_⟩
+          intro k q hq
+          cases k with
+          | zero =>
+            simp at hq; subst hq
+            exact Or.inr ⟨by simpa using hemp, mo, hmo, by simp⟩
+          | succ k =>
+            rcases this.2 k q (by simpa using hq) with h1 | ⟨h1, mo', h2, h3⟩
+            · exact Or.inl ⟨h1.1, by simpa using h1.2⟩
+            · exact Or.inr ⟨h1, mo', h2, by simpa using h3⟩
+
+
 end FontVerif.SubsetHvar
